@@ -96,7 +96,7 @@ package packet
 //@   ensures [n]       err == nil ==> n == 2 + len(bytes)
 //@   ensures [nerr]    err != nil ==> n == 0
 //@   ensures [prefix]  err == nil ==> be16(buf, 0) == len(bytes)
-//@   ensures [body]    err == nil ==> forall i int {buf[2+i]} :: 0 <= i && i < len(bytes) ==> buf[2+i] == bytes[i]
+//@   ensures [body]    err == nil ==> forall k int {buf[k]} :: 2 <= k && k < 2 + len(bytes) ==> buf[k] == bytes[k-2]
 //@   modifies buf[0:min(2 + len(bytes), len(buf))]
 //
 //@ func writeLPString(buf []byte, str string, t Type) (n int, err error)
@@ -105,7 +105,7 @@ package packet
 //@   ensures [n]       err == nil ==> n == 2 + len(str)
 //@   ensures [nerr]    err != nil ==> n == 0
 //@   ensures [prefix]  err == nil ==> be16(buf, 0) == len(str)
-//@   ensures [body]    err == nil ==> forall i int {buf[2+i]} :: 0 <= i && i < len(str) ==> buf[2+i] == str[i]
+//@   ensures [body]    err == nil ==> forall k int {buf[k]} :: 2 <= k && k < 2 + len(str) ==> buf[k] == str[k-2]
 //@   modifies buf[0:min(2 + len(str), len(buf))]
 
 // ---------------------------------------------------------------- header.go
@@ -134,6 +134,8 @@ package packet
 //@   ensures [ok]      err == nil <==> rl <= 268435455 && len(dst) >= 1 + vlen(rl) && len(dst) >= tl
 //@   ensures [n]       err == nil ==> n == 1 + vlen(rl)
 //@   ensures [nerr]    err != nil ==> n == 0
+//@   ensures [l-first] err == nil ==> dst[0] == t*16 + dflags(t) + flags
+//@   ensures [l-rl]    err == nil ==> varint_at(dst, 1, rl)
 //@   ensures [layout]  err == nil ==> hdr_at(dst, t, dflags(t) + flags, rl)
 //@   modifies dst[0:min(5, len(dst))]
 
